@@ -1,5 +1,6 @@
 """C03 -- leaving a region re-synchronises X/Y/Z, mode, units, Z order (E1, FilterWorld)."""
 from ..engine import Scenario
+from .. import findings
 from ..world import World, no_relative_disable
 
 NONTRIVIAL = {"resync-by-move", "resync-by-disable"}
@@ -49,4 +50,31 @@ def scenarios(tier):
                          ("ARC", "under"), ("ARC", "cross", "Z"), ("ARC", "into", "EZ"), ("ZMOVE", 2), ("ZMOVE", 1), ("XONLY", "O2"), ("YONLY", "I1"), ("PRINT", "O3")],
                         max_states=100000 if q else 1000000,
                         note="arcs crossing or ending in the region followed by Z-only and single-axis moves"))
+    # known finding D21: a home offset (Z only: the reference printers treat M206 as a re-labelling of coordinates that
+    # leaves every later logical Z word meaning what it says) set before an episode in which Z changes
+    out.append(Scenario("c03-m206", World, dict(prop="C03", monitors=mon, regions=["R"], emax=1, key_depth=False),
+                        [("RAW", "M206 Z0.2"), ("TRAVEL", "I1"), ("TRAVEL", "O2"), ("ZMOVE", "0.6"), ("ZMOVE", 2)],
+                        max_depth=5, finding="D21",
+                        note="dedicated to known finding D21 (M206 moves the tracked position)"))
     return out
+
+
+def d21_fingerprint():
+    """The defect is still present iff the pinned arithmetic is: AxisPosition(0, 0, 0, True, 10).setHomeOffset(20)
+    leaves current == -200 (a home offset does not move the tool: 0)."""
+    from octoprint_excluderegion.AxisPosition import AxisPosition
+    a = AxisPosition(0, 0, 0, True, 10)
+    a.setHomeOffset(20)
+    return a.current == -200
+
+
+@findings.predicate("D21")
+def _is_d21(finding, payload):
+    if not d21_fingerprint():
+        return False
+    for row in payload.get("trace", []):
+        for hc in row.get("hook_calls", []):
+            c = hc.get("cmd", "")
+            if c.startswith("M206") and any(w[0] in "XYZ" for w in c.split()[1:]):
+                return True
+    return False
